@@ -9,3 +9,5 @@ cd "$ROOT/harness"
 for pkg in vcheck chk_srv chk_cli chk_store; do
   cargo build --profile verif -p "$pkg" 2>&1 | tail -2
 done
+# Python extension for C30 (the check rebuilds it itself; this only warms the cache)
+( cd "$ROOT" && mkdir -p target/py && cd target/py && RUSTC_WRAPPER= PYO3_PYTHON=/usr/local/bin/python3-vt cargo build --release --offline --manifest-path /repo/crates/vibesql-python-bindings/Cargo.toml --target-dir "$ROOT/target/py" 2>&1 | tail -1 ) || true
